@@ -5,6 +5,8 @@ import "io"
 type vpIt struct {
 	key []byte
 	err bool
+	rec any
+	bad bool
 }
 
 // vpKey serialises a tree unambiguously (names length-prefixed).
@@ -25,6 +27,10 @@ func vpKey(n *Node, out []byte) []byte {
 func vpIter(api int, r io.Reader, fn func(vpIt) bool) {
 	for n, err := range Reader(r) {
 		it := vpIt{err: err != nil}
+		it.bad = (n == nil) == (err == nil)
+		if n != nil {
+			it.rec = n
+		}
 		if err == nil {
 			it.key = vpKey(n, nil)
 		}
@@ -45,6 +51,8 @@ func vpIterFile(api int, path string, fn func(vpIt) bool) {
 		}
 	}
 }
+
+func vpRawOK(c byte) bool { return c != ':' }
 
 func vpErrIsLast() bool { return true }
 
@@ -85,4 +93,56 @@ func vpWriteSample(tag string, shape int, w io.Writer) (error, int) {
 		}
 	}
 	return nil, total
+}
+
+var vpPFCount int
+
+// vpParseFloatStub replaces strconv.ParseFloat on symbolic text (totality
+// harnesses only): an arbitrary result - an error, or one of a few values.
+func vpParseFloatStub(s string, bits int) (float64, error) {
+	vpPFCount++
+	k := vpChoice("parsefloat"+vpNum(vpPFCount), 4)
+	if k == 0 {
+		return 0, vpErrRead
+	}
+	return []float64{0, 1.5, -2}[k-1], nil
+}
+
+// vpTemplate: 4+k bytes over the structural alphabet of the format.
+func vpTemplate(k int) []byte {
+	raw := vpBytes("t", 4+k)
+	const alpha = "(),:;'_ a1"
+	for _, c := range raw {
+		ok := false
+		for i := 0; i < len(alpha); i++ {
+			ok = ok || c == alpha[i]
+		}
+		vpAssume(ok)
+	}
+	return raw
+}
+
+func vpHasDist(n *Node) bool {
+	if n.Distance != 0 {
+		return true
+	}
+	for _, c := range n.Children {
+		if vpHasDist(c) {
+			return true
+		}
+	}
+	return false
+}
+
+func vpFixedPoint(rec any) (bool, bool) {
+	n := rec.(*Node)
+	if vpHasDist(n) {
+		return false, false // float <-> text is only run on concrete values
+	}
+	txt, err := n.MarshalText()
+	if err != nil {
+		return true, false
+	}
+	got := vpCollect(vpOneShot(txt), 3)
+	return true, len(got) == 1 && !got[0].err && vpSameTree(got[0].n, n)
 }
